@@ -418,6 +418,18 @@ def iteration_protocol(ctx: Ctx, rule: str, clsname: str):
     allrecv = [n for n in own_walk(an.node) if isinstance(n, ast.Call) and ast.unparse(n.func) == "self.receive"]
     ctx.ob(rule, an, f"{clsname}.__anext__ returns exactly what receive() returned", len(s) == 1 and len(rets_) == 1 and len(allrecv) == 1,
            detail="" if s else "__anext__ is not `return await self.receive()` (an item could be dropped, duplicated or altered by iteration)", by=("return await self.receive()",))
+    # once receive() has handed over an item nothing in __anext__ can fail any more (a further checkpoint, say): an exception raised
+    # there - a cancellation delivered at that point - would lose an item that has already left the stream
+
+    def step_it(st, e, c):
+        return True if e == "recv" and not c.is_exc else st
+
+    def exit_it(kind, st, facts):
+        if st and kind != "return":
+            return f"{clsname}.__anext__ can raise after receive() returned an item: the item is neither delivered to the loop body nor left in the stream"
+        return None
+
+    ctx.paths(rule, an, [("recv", "await self.receive()")], step_it, False, exit_it, native=True, instance=f"{clsname}.__anext__ cannot fail once it holds an item")
     hs = [h for h in own_walk(an.node) if isinstance(h, ast.ExceptHandler)]
     ok = len(hs) == 1 and hs[0].type is not None and ast.unparse(hs[0].type) == "EndOfStream" and \
         any(isinstance(x, ast.Raise) and x.exc is not None and "StopAsyncIteration" in ast.unparse(x.exc) for x in hs[0].body)
